@@ -52,6 +52,14 @@ ApiViolated(e) ==
           [] n = "C19_ErrorIs4xx" -> C19_ErrorIs4xx(e)
           [] n = "C19_SameResult" -> C19_SameResult(e)
           [] n = "C19_ClientDecodesSame" -> C19_ClientDecodesSame(e)) }
+\* the log stream route: a single-process, non-following stream delivers the same tail a direct call returns and ends
+C19_LogStreamFaithful(e) == e.judged => (~e.dialErr /\ e.ended /\ e.got = e.direct)
+C19_LogStreamStillServing(e) == e.liveOk
+ApiWsViolated(e) ==
+  { n \in {"C19_LogStreamFaithful", "C19_LogStreamStillServing"} :
+      ~(CASE n = "C19_LogStreamFaithful" -> C19_LogStreamFaithful(e)
+          [] n = "C19_LogStreamStillServing" -> C19_LogStreamStillServing(e)) }
+ApiWsDetail(e) == [names |-> e.names, judged |-> e.judged, dialErr |-> e.dialErr, ended |-> e.ended, got |-> Len(e.got), direct |-> Len(e.direct)]
 ApiDetail(e) == [via |-> e.via, route |-> e.route, reqKind |-> e.reqKind, status |-> e.status,
                  directErr |-> IF NoCall(e) THEN "<no call>" ELSE D(e).err, clientErr |-> e.client.err]
 =============================================================================
